@@ -118,7 +118,7 @@ def r1(ctx):
     find = repo.func("finder", "find")
     loops = [x for x in walk_no_nested(find.node) if isinstance(x, ast.For) and "include_paths" in u(x.iter)]
     ok = len(loops) == 1 and u(loops[0].iter) == "e['include_paths']" and len(loops[0].body) == 1 and u(loops[0].body[0]) == f"file_platform.add_include_path({u(loops[0].target)})"
-    ctx.check(ok, "finder:find:include-paths-in-order", "include paths must be handed to the platform one by one in list order, unfiltered", find.loc())
+    ctx.soft(ok, "finder:find:include-paths-in-order", "include paths must be handed to the platform one by one in list order, unfiltered", find.loc())
     ctx.floor(8 + 2)
 
 
@@ -326,7 +326,7 @@ def r5(ctx):
         any(e[0] == "call" and e[1] == "self._skip_includes.append" and vtext(e[2]) == a.params[1] for e in p.effects) or p.atoms.get(f"{a.params[1]} In self._skip_includes")
         for p in ev.paths(a.node)
     )
-    ctx.check(okw, "platform:Platform.add_include_to_skip:stores-argument", "must record the given path", a.loc())
+    ctx.soft(okw, "platform:Platform.add_include_to_skip:stores-argument", "must record the given path", a.loc())
     rows = ev.paths(pr.node)
     okr = all(p.result[0] == "return" and p.result[1] is (not p.atoms.get(f"{pr.params[1]} In self._skip_includes")) and len(p.atoms) == 1 for p in rows)
     ctx.check(okr, "platform:Platform.process_include:membership", f"process_include(fn) must be exactly `fn not in skip list`: {[p.describe() for p in rows]}", pr.loc())
